@@ -751,8 +751,19 @@ fn run_prog(sh: &Arc<Shared>, t: usize, arena: &'static Arena, prog: &[POp], clo
             }
         }
     }
-    // end of program: keep what is still held (forever), but let go of the handle objects and the arena values
+    // end of program: take what others sent, keep what is still held (forever), but let go of the handle
+    // objects and the arena values
     set_op("end-of-program".to_string());
+    {
+        let mut st = lock(sh);
+        let items: Vec<(SendBox, LiveInfo, Vec<u32>)> = st.mailbox[t].drain(..).collect();
+        for (b, info, vc) in items {
+            let ti = st.race.ix(t);
+            join(&mut st.race.vc[ti], &vc);
+            hs.push(TH { obj: Some(b.0), info, owned: true });
+            st.classes.insert("owned-buffer-received");
+        }
+    }
     for th in hs.drain(..) {
         if let Some(mut o) = th.obj {
             if th.owned {
@@ -1031,6 +1042,9 @@ pub fn run_case_b(case: &CaseB, o: &OptsB) -> RunB {
             Action::Proceed
         })));
         w.hs.clear();
+        // buffers still sitting in a mailbox are dropped by the main thread (after the join edge)
+        let leftovers: Vec<(SendBox, LiveInfo, Vec<u32>)> = lock(&sh).mailbox.iter_mut().flat_map(|m| m.drain(..)).collect();
+        drop(leftovers);
         let r = w.close_all();
         verif::set_hook(None);
         let after = lock(&sh).unmounts;
